@@ -10,10 +10,14 @@ annotations["nginx.ingress.kubernetes.io/canary-by-cookie"] = nil
 annotations["nginx.ingress.kubernetes.io/canary-by-header"] = nil
 annotations["nginx.ingress.kubernetes.io/canary-by-header-pattern"] = nil
 annotations["nginx.ingress.kubernetes.io/canary-by-header-value"] = nil
+annotations["nginx.ingress.kubernetes.io/canary-by-query"] = nil
+annotations["nginx.ingress.kubernetes.io/canary-by-query-pattern"] = nil
+annotations["nginx.ingress.kubernetes.io/canary-by-query-value"] = nil
 -- MSE extended annotations
 annotations["mse.ingress.kubernetes.io/canary-by-query"] = nil
 annotations["mse.ingress.kubernetes.io/canary-by-query-pattern"] = nil
 annotations["mse.ingress.kubernetes.io/canary-by-query-value"] = nil
+annotations["mse.ingress.kubernetes.io/request-header-control-update"] = nil
 annotations["nginx.ingress.kubernetes.io/canary-weight"] = nil
 if ( obj.weight ~= "-1" )
 then
